@@ -45,24 +45,40 @@ def Easing.apply (e : Easing α) (x : α) : α :=
 def tweenValue (easing : Easing α) (durationNs : Nat) (time : α) : α :=
   easing.apply (time / (durToSecs durationNs : α))
 
-/-- mirrors: value.rs::Mapping (output type f64) -/
-structure Mapping (α : Type) where
+/-- mirrors: tween/tweenable.rs::Tweenable — linear interpolation on a value type `τ` -/
+structure Tweenable (α τ : Type) where
+  lerp : τ → τ → α → τ
+
+def tw64 : Tweenable α α := ⟨lerp64⟩
+def tw32 : Tweenable α α := ⟨lerp32⟩
+/-- mirrors: tweenable.rs `impl Tweenable for Duration` (nanoseconds) -/
+def twDur : Tweenable α Nat :=
+  ⟨fun a b t => KOps.durFromSecs ((durToSecs a : α) + ((durToSecs b : α) - (durToSecs a : α)) * t)⟩
+/-- mirrors: clock_speed.rs `impl Tweenable for ClockSpeed` -/
+def twCs : Tweenable α (ClockSpeed α) := ⟨ClockSpeed.lerp⟩
+
+/-- mirrors: value.rs::Mapping<T> -/
+structure Mapping (α τ : Type) where
   in0 : α
   in1 : α
-  out0 : α
-  out1 : α
+  out0 : τ
+  out1 : τ
   easing : Easing α
 
 /-- mirrors: value.rs::Mapping::map — the eased amount in [0,1] -/
-def Mapping.amount (m : Mapping α) (input : α) : α :=
+def Mapping.amount {τ : Type} (m : Mapping α τ) (input : α) : α :=
   let a := (input - m.in0) / (m.in1 - m.in0)
   let a := clamp a (0.0 : α) (1.0 : α)
   m.easing.apply a
 
-/-- mirrors: value.rs::Mapping::map for `T = f64` -/
-def Mapping.map64 (m : Mapping α) (input : α) : α := lerp64 m.out0 m.out1 (m.amount input)
+/-- mirrors: value.rs::Mapping::map -/
+def Mapping.map {τ : Type} (tw : Tweenable α τ) (m : Mapping α τ) (input : α) : τ :=
+  tw.lerp m.out0 m.out1 (m.amount input)
 
-/-- mirrors: value.rs::Mapping::map for `T = f32`-backed units (Decibels, Panning, Mix, f32) -/
-def Mapping.map32 (m : Mapping α) (input : α) : α := lerp32 m.out0 m.out1 (m.amount input)
+/-- `Mapping<f64>::map` -/
+def Mapping.map64 (m : Mapping α α) (input : α) : α := m.map tw64 input
+
+/-- `Mapping<T>::map` for `f32`-backed units (Decibels, Panning, Mix, f32) -/
+def Mapping.map32 (m : Mapping α α) (input : α) : α := m.map tw32 input
 
 end K
